@@ -948,7 +948,9 @@ PROPS = {
              "bytes; a watchdog detects sessions that stop making progress (busy loop)"
              " Plus 32 CONNECT sessions whose payload (0, 10, 4096, 70000 bytes), end of stream and (in half of them) the drop of the "
              "sink reach the codec while it is blocked writing to a client that reads 16 or 64 bytes at a time over a 64- or 1000-byte "
-             "transport and closes last: the client must get the complete payload and the end of stream, the session must end gracefully",
+             "transport and closes last: the client must get the complete payload and the end of stream, the session must end gracefully"
+             " Plus 4 CONNECT sessions whose relay side is dropped without an orderly end while the client stays connected and silent: "
+             "the session must end and the client must see its connection closed",
         explanation="theorems head_segmentation_invariant, payload_exact, incomplete_head_waits, no_spin, head_bounded, oversize_rejected, "
                     "response_wellformed about TT/Model/H1.lean under the hypothesis PrefixConsistent(parser)",
         trusted=["httparse satisfies PrefixConsistent and agrees with 'head ends at the first CRLF CRLF' on the generated valid heads "
@@ -1071,8 +1073,9 @@ PROPS = {
              " One reply in five is 0, 1 or 2 bytes long (an empty datagram is a datagram: relayed, and the flow stays)"
              " One live server is on [::1] and every second client source label is IPv6 (direct forwarder; the SOCKS5 relay of the harness is IPv4-only)"
              " One reply in twelve is 65000 or 65497 bytes long"
+             " On the direct path replies of 65498..65507 bytes (up to the maximal IPv4 UDP payload) as well: ten directed histories and half of the large random replies"
              " A destination that restarts (its port closes, the client sends, it re-binds and sends to the flow): the error the flow's socket reports on receive ends the flow in the table, the socket and the gauge alike, and the client's next datagram starts a fresh flow that reaches the destination",
-        explanation="theorems sent_to_own_destination, datagram_step_output, reply_labelled_with_own_flow, reply_delivered_on_live_flow, "
+        explanation="theorems direct_reply_received_whole, socks_relay_datagram_received_whole (receive buffers read from the source by the translator), sent_to_own_destination, datagram_step_output, reply_labelled_with_own_flow, reply_delivered_on_live_flow, "
                     "tables_coupled, sockets_from_history, idle_flow_released, tick_expires_all_idle, fresh_flow_survives_advance, "
                     "tick_period, dns_flow_released_when_answered, dns_flow_kept_while_pending, dns_query_counts, "
                     "datagram_starts_fresh_flow, other_flows_undisturbed, only_close_terminates, unconnectable_leaves_nothing, "
